@@ -1,15 +1,20 @@
 import BFL.Driver.Proto
-import BFL.Gen.RaceTable
+import BFL.Model.Race
 /-
-Driver entries of C10: the decision procedure of BFL/Model/Race.lean executed (compiled) on the
-regenerated table, for the check to compare with ThreadSanitizer's reports.
+Driver entries of C10: the decision procedure of BFL/Model/Race.lean executed (compiled) on a table
+that arrives *on the case line* (the shared driver must not depend on the regenerated file
+BFL/Gen/RaceTable.lean: if the translator ever emits something that does not elaborate, only C10 breaks).
 
-  c10-verdicts            -> "ok" then one token per member touched by both roles:
-                             Class::member|kind|ok            or
-                             Class::member|kind|bad|<ctl fn>|<line>|<r/w>|<filter fn>|<line>|<r/w>
-  c10-reach controller|filter -> "ok" then the names of the functions the role reaches
-  c10-undisciplined       -> "ok" then the ids of the undisciplined members (Table.undisciplined)
-  c10-claims              -> "ok" roots-ok reach-ok shared-ok undisciplined-ok (claims of the generated file vs definitions)
+  c10 <what> nF nM nA nC  fields: (cls name kind)*  methods: (name ovl virtual body)*
+                          accesses: (meth field kind self line nlocks lock*)*  calls: (caller callee kind)*
+      kind of a field 0 atomic 1 plain 2 mutex 3 condvar 4 other; of an access 0 read 1 write 2 rmw;
+      of a call 0 direct 1 virt 2 ref 3 spawn
+    what = verdicts  -> "ok" then one token per member touched by both roles:
+                        Class::member|kind|ok   or
+                        Class::member|kind|bad|<ctl fn>|<line>|<r/w>|<filter fn>|<line>|<r/w>
+    what = summary   -> "ok" roots-present wf  R <controller root ids> R <filter root ids>
+                        C <reach controller bitset> F <reach filter bitset>  S <shared ids> U <undisciplined ids>
+                        P <spawn pairs callerName/calleeName>
 -/
 namespace BFL.DriverRace
 open BFL BFL.Proto BFL.Race
@@ -20,6 +25,33 @@ def kindStr : FieldKind → String
 def accStr : AccKind → String
   | .read => "r" | .write => "w" | .rmw => "rw"
 
+def fieldKind : R FieldKind := do
+  match (← nat) with
+  | 0 => pure .atomic | 1 => pure .plain | 2 => pure .mutex | 3 => pure .condvar | 4 => pure .other
+  | _ => failure
+
+def accKind : R AccKind := do
+  match (← nat) with
+  | 0 => pure .read | 1 => pure .write | 2 => pure .rmw
+  | _ => failure
+
+def callKind : R CallKind := do
+  match (← nat) with
+  | 0 => pure .direct | 1 => pure .virt | 2 => pure .ref | 3 => pure .spawn
+  | _ => failure
+
+def readTable : R Table := do
+  let nF ← nat; let nM ← nat; let nA ← nat; let nC ← nat
+  let fields ← listOf nF (do let c ← nat; let n ← nat; let k ← fieldKind; pure (⟨c, n, k⟩ : Field))
+  let methods ← listOf nM (do let n ← nat; let o ← nat; let v ← bool; let b ← bool; pure (⟨n, o, v, b⟩ : Method))
+  let accesses ← listOf nA (do
+    let m ← nat; let f ← nat; let k ← accKind; let s ← bool; let line ← nat
+    let nl ← nat; let locks ← listOf nl nat
+    pure (⟨m, f, k, s, locks, line⟩ : Access))
+  let calls ← listOf nC (do let a ← nat; let b ← nat; let k ← callKind; pure (⟨a, b, k⟩ : Call))
+  done
+  pure ⟨fields, methods, accesses, calls⟩
+
 def verdictTok (T : Table) (f : Nat) : String :=
   let k := match T.fields[f]? with | some fd => kindStr fd.kind | none => "?"
   match T.witness f with
@@ -27,27 +59,25 @@ def verdictTok (T : Table) (f : Nat) : String :=
   | some (a, b) =>
     s!"{T.fieldName f}|{k}|bad|{T.methodName a.meth}|{a.line}|{accStr a.kind}|{T.methodName b.meth}|{b.line}|{accStr b.kind}"
 
-def reachNames (T : Table) (r : Role) : List String :=
-  let S := T.reach r
-  (List.range T.methods.length).filterMap fun i => if S.testBit i then some (T.methodName i) else none
-
 def bstr (b : Bool) : String := if b then "1" else "0"
 
+def summary (T : Table) : List String :=
+  ["ok", bstr (T.rootsPresent .controller && T.rootsPresent .filter), bstr T.wfB, "R"] ++
+  (T.rootIds .controller).map toString ++ ["R"] ++ (T.rootIds .filter).map toString ++
+  ["C", toString (T.reach .controller), "F", toString (T.reach .filter), "S"] ++ T.shared.map toString ++
+  ["U"] ++ T.undisciplined.map toString ++ ["P"] ++
+  T.spawns.map fun p => decodeName p.1 ++ "/" ++ decodeName p.2
+
 def handle (op : String) (args : List String) : Option String :=
-  let T := RaceTable.table
   match op, args with
-  | "c10-verdicts", [] => some (join ("ok" :: T.shared.map (verdictTok T)))
-  | "c10-reach", ["controller"] => some (join ("ok" :: reachNames T .controller))
-  | "c10-reach", ["filter"] => some (join ("ok" :: reachNames T .filter))
-  | "c10-undisciplined", [] => some (join ("ok" :: T.undisciplined.map toString))
-  | "c10-claims", [] =>
-    some (join ["ok",
-      bstr (T.rootIds .controller == RaceTable.rootsClaim .controller && T.rootIds .filter == RaceTable.rootsClaim .filter),
-      bstr (T.reach .controller == RaceTable.reachClaim .controller && T.reach .filter == RaceTable.reachClaim .filter),
-      bstr (T.shared == RaceTable.sharedClaim),
-      bstr (T.undisciplined == RaceTable.claimedUndisciplined),
-      bstr (T.rootsPresent .controller && T.rootsPresent .filter),
-      bstr (T.wfB)])
+  | "c10", what :: rest =>
+    match run readTable rest with
+    | none => some "bad-args"
+    | some T =>
+      match what with
+      | "verdicts" => some (join ("ok" :: T.shared.map (verdictTok T)))
+      | "summary" => some (join (summary T))
+      | _ => some "bad-args"
   | _, _ => none
 
 end BFL.DriverRace
